@@ -23,6 +23,13 @@ WRITE_CLASSES = {
 }
 
 
+KNOWN_WRITE_METHODS = {
+    "Output": ["write", "write_line", "write_line_raw", "write_raw"],
+    "SectionOutput": ["_pop_stream_content_until_current_section", "clear", "overwrite", "write"],
+    "IO": ["error", "error_line", "error_line_raw", "error_raw", "write", "write_line", "write_line_raw", "write_raw"],
+}
+
+
 def reflect_write_methods(P=None):
     """methods from which self._stream.write is reachable through self-calls / delegation to an output"""
     P = P or frontend.Program()
@@ -56,6 +63,9 @@ def reflect_write_methods(P=None):
                 if m not in reach and cs & reach:
                     reach.add(m)
                     changed = True
+        # the write methods known on the reference tree stay in the set whatever their bodies call now: a method that
+        # no longer reaches the stream is exactly what the gate contract ("the text reaches the stream iff ...") must see
+        reach |= set(m for m in KNOWN_WRITE_METHODS.get(cname, ()) if m in ci.methods)
         found[cname] = sorted(reach)
     return found
 
